@@ -231,3 +231,33 @@ def oracle_c06(h, st, b):
             if int(kv['max']) > st.opts.get('tokens', 0) + 1: bad.append('held %s tokens, pool has %s+1' % (kv['max'], st.opts.get('tokens')))
     if 'stuck' in (b.err or ''): bad.append('build ended with "stuck"')
     return bad or None
+
+# ------------------------------------------------------------------ directed scenario families
+def motif_deps_swap(rnd, sid):
+    """a deps statement whose output does not change when one recorded dependency is swapped for another
+    with identical text (already known to the deps log), then the new dependency is edited"""
+    g = engine.Graph()
+    for n in ('a.h', 'b.h', 'c.h'): g.sources[n] = 'same-text'
+    g.sources['m.c'] = 'main.0'; g.sources['o.c'] = 'other.0'
+    kind = rnd.choice(['gcc', 'msvc', 'gcc'])
+    e1 = engine.Edge(0); e1.outs = ['main.o']; e1.exp = ['m.c']; e1.deps = kind; e1.restat = rnd.random() < 0.8
+    e2 = engine.Edge(1); e2.outs = ['other.o']; e2.exp = ['o.c']; e2.deps = rnd.choice(['gcc', 'msvc'])
+    for e in (e1, e2):
+        if e.deps == 'gcc': e.depfile = e.out0 + '.d'
+    extra = [x for x in ('c.h',) if rnd.random() < 0.5]
+    e1.hidden = extra + ['a.h']; e2.hidden = ['b.h'] + extra
+    if rnd.random() < 0.5: e1.hidden.reverse()
+    g.edges = [e1, e2]
+    if rnd.random() < 0.5:
+        e3 = engine.Edge(2); e3.outs = ['prog']; e3.exp = ['main.o', 'other.o']; g.edges.append(e3)
+    h = Hist(sid, g)
+    h.build(rnd, None, j=rnd.choice([1, 2]), k=1, sched=rand_sched(rnd, 8))
+    e1.hidden = [('b.h' if x == 'a.h' else x) for x in e1.hidden]
+    h.add(Step('sethidden', 'step sethidden %s %s' % (hx(e1.out0), ' '.join(hx(x) for x in e1.hidden)), edge=0))
+    if rnd.random() < 0.7: h.add(Step('touch', 'step touch %s' % hx('m.c'), path='m.c'))
+    else: h.edit('m.c', 'main.1')
+    h.build(rnd, None, j=1, k=1, sched=rand_sched(rnd, 8))
+    h.edit('b.h', 'new-text-%d' % rnd.randrange(1000))
+    st = h.build(rnd, None, j=1, k=1, sched=rand_sched(rnd, 8))
+    h.add(Step('build', st.line, g=st.g, sources=st.sources, targets=st.targets, opts=st.opts, repeat=True))
+    return h
